@@ -1,13 +1,17 @@
 import Sismic.Proofs.C09
+import Sismic.Proofs.Sim
 /-!
 # Property C09 — contract checking is transparent
 
 Proved here: with `ignore_contract=True` no contract condition is evaluated at all and no
-`ContractError` is ever raised; and (from `executeOnce_ok`) the effect log of a run whose
-conditions all hold differs from the log of the contract-ignoring run of the *same macro step*
-only by the evaluations (`log_differs_only_by_evaluations`).  That the two settings produce the
-same macro steps and contexts for every evaluator is decided by the tie (lock-step execution under
-both settings, including the shipped elevator / microwave contract charts): DESIGN.md §6 C09.
+`ContractError` is ever raised; and **the run that ignores contracts simulates the run that checks
+them** as long as no condition fails or errs (`ignoring_simulates_checking`, `…_run`): same macro
+steps (transitions, entered/exited states, sent events), same configuration, queues, memory and
+times, same outside world, same log of executed code and meta-events — the contexts agree up to
+any relation `eqv` the evaluator's guards and code cannot see through (`Blind`; for
+`PythonEvaluator`: "equal except for the frozen `__old__` contexts", which only contract
+conditions can read).  The tie runs every history under both settings, including the shipped
+elevator / microwave contract charts.
 -/
 namespace Sismic.C09
 open M
@@ -57,5 +61,48 @@ theorem log_differs_only_by_evaluations (c : Chart) (m : Micro) :
   cases m.transition with
   | none => simp
   | some t => simp [transLog, List.filter_cons, List.filter_append, hc, contractLog_true]
+
+/-- **Transparency.**  If the evaluator's guards and code are blind to `eqv`, a call of
+    `execute_once` that checks contracts and returns normally (no condition failed or raised) is
+    matched, from every `Sim`-related state, by the same call ignoring contracts: same returned
+    macro step, and again `Sim`-related states — i.e. equal configuration, memory, queues, times,
+    listeners, sent events and outside world, `eqv`-related contexts, and the same log minus the
+    condition evaluations. -/
+theorem ignoring_simulates_checking (eqv : σ → σ → Prop) (hE : Blind env.E eqv)
+    (hig : env.ignoreContract = false) (clock : Int) (rs₁ rs₂ rs₁' : RS σ ω) (r : Option MacroStep)
+    (hs : Sim eqv rs₁ rs₂) (h : executeOnce env clock rs₁ = (.ok r, rs₁')) :
+    ∃ rs₂', executeOnce env.ignoring clock rs₂ = (.ok r, rs₂') ∧ Sim eqv rs₁' rs₂' := by
+  obtain ⟨r', rs₂', h2, hr, hs'⟩ := sim_executeOnce eqv env hE hig clock rs₁ rs₂ r rs₁' hs h
+  exact ⟨rs₂', hr ▸ h2, hs'⟩
+
+/-- what `Sim` says, spelled out -/
+theorem sim_spelled_out (eqv : σ → σ → Prop) (rs₁ rs₂ : RS σ ω) (h : Sim eqv rs₁ rs₂) :
+    rs₂.st.config = rs₁.st.config ∧ rs₂.st.memory = rs₁.st.memory ∧ rs₂.st.intQ = rs₁.st.intQ ∧
+    rs₂.st.extQ = rs₁.st.extQ ∧ rs₂.st.time = rs₁.st.time ∧ rs₂.st.sentEvents = rs₁.st.sentEvents ∧
+    rs₂.st.entryTime = rs₁.st.entryTime ∧ rs₂.st.idleTime = rs₁.st.idleTime ∧
+    rs₂.world = rs₁.world ∧ eqv rs₁.st.ctx rs₂.st.ctx ∧
+    rs₂.eff = rs₁.eff.filter Effect.notCond := by
+  obtain ⟨x, rfl, hx⟩ := h
+  exact ⟨rfl, rfl, rfl, rfl, rfl, rfl, rfl, rfl, rfl, hx, rfl⟩
+
+/-- a run: successive calls of `execute_once` that all return normally, with what they returned -/
+inductive RunOK (env : Env σ ω) : List Int → RS σ ω → List (Option MacroStep) → RS σ ω → Prop
+  | nil (rs) : RunOK env [] rs [] rs
+  | cons {t ts rs rs1 rs' r out} : executeOnce env t rs = (.ok r, rs1) → RunOK env ts rs1 out rs' →
+      RunOK env (t :: ts) rs (r :: out) rs'
+
+/-- **… for whole runs**: a run in which no contract condition fails or errs is reproduced, macro
+    step by macro step, by the run that ignores contracts. -/
+theorem ignoring_simulates_checking_run (eqv : σ → σ → Prop) (hE : Blind env.E eqv)
+    (hig : env.ignoreContract = false) (clocks : List Int) (rs₁ rs₁' : RS σ ω)
+    (out : List (Option MacroStep)) (hrun : RunOK env clocks rs₁ out rs₁') :
+    ∀ rs₂, Sim eqv rs₁ rs₂ → ∃ rs₂', RunOK env.ignoring clocks rs₂ out rs₂' ∧ Sim eqv rs₁' rs₂' := by
+  induction hrun with
+  | nil rs => intro rs₂ hs; exact ⟨rs₂, RunOK.nil rs₂, hs⟩
+  | cons hx _ ih =>
+    intro rs₂ hs
+    obtain ⟨rs2, h2, hs'⟩ := ignoring_simulates_checking env eqv hE hig _ _ rs₂ _ _ hs hx
+    obtain ⟨rs₂', hr, hs''⟩ := ih rs2 hs'
+    exact ⟨rs₂', RunOK.cons h2 hr, hs''⟩
 
 end Sismic.C09
